@@ -10,7 +10,6 @@
    possibly from a KEY line. *)
 From V.model Require Import Base Deb822Lex Deb822Parse Grammar Lossy LossySpec Derive TypedDocs.
 From V.proofs Require Import BaseP Deb822LexP Deb822ParseP GrammarAccP LossyRtP DeriveP TypedCodecP.
-Set Default Timeout 60.
 
 Definition value_tok_ok (s : str) : bool :=
   no_eol s && match s with c :: _ => negb (is_indent c) | [] => false end.
